@@ -287,7 +287,10 @@ MsgOrders == SetToSeq(PermSeqs(<<1, 2, 3, 4>>) \ {<<1, 2, 3, 4>>})
 WithRoot(fs) == <<Leaf, SortInner, Reordered(SortRoot, fs), SortOther>>
 Permuted(long) ==
   [i \in DOMAIN FieldOrders(long) |-> WithRoot(FieldOrders(long)[i])]
-  \o [i \in 1..(IF long THEN Len(MsgOrders) ELSE 5) |-> [j \in 1..4 |-> SortMsgs[MsgOrders[i][j]]]]
+  \* message orders: the reversal and a rotation always (a type declared after / before the messages that use
+  \* it), all 23 in the thorough tier
+  \o [i \in 1..2 |-> [j \in 1..4 |-> SortMsgs[<<<<4, 3, 2, 1>>, <<3, 4, 1, 2>>>>[i][j]]]]
+  \o [i \in 1..(IF long THEN Len(MsgOrders) ELSE 3) |-> [j \in 1..4 |-> SortMsgs[MsgOrders[i][j]]]]
   \o <<[j \in 1..4 |-> WithRoot(FieldOrders(long)[1])[MsgOrders[7][j]]]>>
 
 SortAlts(long) == [i \in DOMAIN Permuted(long) |-> Alt("perm." \o ToString(i), "C15.sorted_bytes", <<>>, 0, Permuted(long)[i])]
